@@ -43,13 +43,31 @@ def fresh_worktree():
     assert rc == 0, out
 
 
+def test_flags(m):
+    return (" --features %s/serde" % m["crate"]) if m.get("features") == "serde" else ""
+
+
+def add_dev_deps(m):
+    """demos of serde changes need bincode as a temporary dev-dependency of the crate (not part of the patch)"""
+    if m.get("features") != "serde":
+        return
+    ct = os.path.join(WT, os.path.dirname(os.path.dirname(m["demo_dest"])), "Cargo.toml")
+    t = open(ct).read()
+    if "bincode" not in t:
+        if "[dev-dependencies]" in t:
+            t = t.replace("[dev-dependencies]", "[dev-dependencies]\nbincode = \"1.3\"", 1)
+        else:
+            t += "\n[dev-dependencies]\nbincode = \"1.3\"\n"
+        open(ct, "w").write(t)
+
+
 def cmd_import(src, i, prop, crate, demo_dest):
     d = os.path.join(SEEDED, i)
     os.makedirs(d, exist_ok=True)
     shutil.copy(os.path.join(src, "patch.diff"), os.path.join(d, "patch.diff"))
     shutil.copy(os.path.join(src, "demo.rs"), os.path.join(d, "demo.rs"))
     m0 = json.load(open(os.path.join(src, "meta.json")))
-    m = dict(id=i, breaks=prop, what=m0.get("what"), needs=m0.get("needs"), crate=crate, demo_dest=demo_dest,
+    m = dict(id=i, breaks=prop, what=m0.get("what"), needs=m0.get("needs"), crate=crate, demo_dest=demo_dest, features=m0.get("features", ""),
              author="independent sub-agent given only the property text and a scratch worktree", author_notes=m0.get("tests_pass"), ran={})
     save(i, m)
     print("imported", i)
@@ -63,8 +81,10 @@ def cmd_confirm(i):
     demo = os.path.join(WT, m["demo_dest"])
     os.makedirs(os.path.dirname(demo), exist_ok=True)
     shutil.copy(os.path.join(d, "demo.rs"), demo)
+    add_dev_deps(m)
+    fl = test_flags(m)
     res = {}
-    rc, out = sh("timeout 2500 cargo test --offline -p %s --test demo_seeded" % m["crate"], cwd=WT, env=env)
+    rc, out = sh("timeout 2500 cargo test --offline -p %s%s --test demo_seeded" % (m["crate"], fl), cwd=WT, env=env)
     res["demo_on_clean_tree"] = "passes" if rc == 0 else "FAILS"
     rc, out = sh("git apply %s" % os.path.join(d, "patch.diff"), cwd=WT)
     res["patch_applies"] = rc == 0
@@ -72,10 +92,13 @@ def cmd_confirm(i):
         # the demo itself is a test target of the crate: judge the existing suite without it
         os.remove(demo)
         rc, out = sh("timeout 2500 cargo test --offline -p %s" % m["crate"], cwd=WT, env=env)
+        if rc == 0 and fl:
+            rc, out2 = sh("timeout 2500 cargo test --offline -p %s%s" % (m["crate"], fl), cwd=WT, env=env)
+            out += out2
         res["existing_tests_with_change"] = "pass" if rc == 0 else "FAIL"
         res["existing_tests_tail"] = [l for l in out.splitlines() if l.startswith("test result")][-4:]
         shutil.copy(os.path.join(d, "demo.rs"), demo)
-        rc, out = sh("timeout 2500 cargo test --offline -p %s --test demo_seeded" % m["crate"], cwd=WT, env=env)
+        rc, out = sh("timeout 2500 cargo test --offline -p %s%s --test demo_seeded" % (m["crate"], fl), cwd=WT, env=env)
         res["demo_with_change"] = "fails" if rc != 0 else "PASSES"
     res["repo_head"] = sh("git -C /repo log --format=%h -1")[1].strip()
     m["ran"]["confirm"] = res
